@@ -33,13 +33,15 @@ type Site struct {
 
 // Result of an instrumentation.
 type Result struct {
-	Overlay     string // path of overlay.json
-	Sites       []Site
-	Skipped     []string // map ranges left alone (labelled loops etc.)
-	WatchedVars []string
+	Overlay string // path of overlay.json
+	// OverlayPlain only adds the runtime package (no source file is replaced)
+	OverlayPlain string
+	Sites        []Site
+	Skipped      []string // map ranges left alone (labelled loops etc.)
+	WatchedVars  []string
 }
 
-const vrtImport = "github.com/go-swagger/go-swagger/internal/vrt"
+const vrtImport = "github.com/go-swagger/go-swagger/vrtverif"
 
 // Options select what to instrument.
 type Options struct {
@@ -48,6 +50,8 @@ type Options struct {
 	VrtSource string // path of vrt.go.src
 	Patterns  []string
 	Scheduler bool // also insert scheduling points and replace sync.Mutex
+	// NoMapRanges leaves map ranges alone (scheduler-only build)
+	NoMapRanges bool
 }
 
 // Run instruments the repository.
@@ -176,7 +180,7 @@ func Run(o Options) (*Result, error) {
 						if !ok {
 							continue
 						}
-						if _, isMap := tv.Type.Underlying().(*types.Map); !isMap {
+						if _, isMap := tv.Type.Underlying().(*types.Map); !isMap || o.NoMapRanges {
 							continue
 						}
 						siteID++
@@ -228,6 +232,16 @@ func Run(o Options) (*Result, error) {
 								if v, ok := p.TypesInfo.Uses[id].(*types.Var); ok && watched[v] {
 									name = v.Name()
 								}
+								// calls into the file system and the spec loader are scheduling points too:
+								// the target directory, temp files and loader caches are shared state
+								if pn, ok := p.TypesInfo.Uses[id].(*types.PkgName); ok {
+									switch pn.Imported().Path() {
+									case "os", "io/ioutil", "github.com/go-openapi/loads":
+										if name == "" {
+											name = "io:" + pn.Imported().Name()
+										}
+									}
+								}
 							}
 							return true
 						})
@@ -252,7 +266,16 @@ func Run(o Options) (*Result, error) {
 					ast.Inspect(fd.Body, func(n ast.Node) bool {
 						switch t := n.(type) {
 						case *ast.BlockStmt:
-							t.List = insertPoints(t.List)
+							isClauseList := false
+							for _, st := range t.List {
+								switch st.(type) {
+								case *ast.CaseClause, *ast.CommClause:
+									isClauseList = true
+								}
+							}
+							if !isClauseList {
+								t.List = insertPoints(t.List)
+							}
 						case *ast.CaseClause:
 							t.Body = insertPoints(t.Body)
 						}
@@ -317,10 +340,15 @@ func Run(o Options) (*Result, error) {
 	if err := os.WriteFile(vrtOut, src, 0o644); err != nil {
 		return nil, err
 	}
-	overlay[filepath.Join(o.Repo, "internal", "vrt", "vrt.go")] = vrtOut
+	overlay[filepath.Join(o.Repo, "vrtverif", "vrt.go")] = vrtOut
 	ob, _ := json.MarshalIndent(map[string]interface{}{"Replace": overlay}, "", " ")
 	res.Overlay = filepath.Join(o.OutDir, "overlay.json")
 	if err := os.WriteFile(res.Overlay, ob, 0o644); err != nil {
+		return nil, err
+	}
+	pb, _ := json.MarshalIndent(map[string]interface{}{"Replace": map[string]string{filepath.Join(o.Repo, "vrtverif", "vrt.go"): vrtOut}}, "", " ")
+	res.OverlayPlain = filepath.Join(o.OutDir, "overlay-plain.json")
+	if err := os.WriteFile(res.OverlayPlain, pb, 0o644); err != nil {
 		return nil, err
 	}
 	sb, _ := json.MarshalIndent(res.Sites, "", " ")
